@@ -12,7 +12,8 @@ Partial, as C02: `validateClean_sound` (per-instance validator, sound for all in
 universal replay lemmas the uncomputation protocol rests on, plus – for every run of `compile`
 – the layout the cleanliness statement is phrased in: `compile_input_qubits` (the arguments sit
 on qubits `0..n-1`, nothing else is mapped there by name), `compile_outs_defined` (every return
-bit names a qubit of the circuit, so `outs` has one entry per return bit) and
+bit names a qubit of the circuit, so `outs` has one entry per return bit),
+`compile_args_not_scratch` (no argument qubit is in the ancilla / free / marked set) and
 `compile_replay_restores` (reverse replay of any compiled gate list restores every qubit).
 -/
 namespace QV.C03
@@ -137,6 +138,18 @@ theorem compile_outs_defined (inputs : List String) (defs : List (String × BExp
     rw [hq'] at hrq
     cases hrq
     exact hlt
+
+/-- no argument qubit is ever part of the scratch space: for every run of `compile`, a qubit
+below the number of inputs is neither an ancilla nor in the free set (so `get_free_ancilla`
+never hands one out and `uncompute_all` never records one as freed) -/
+theorem compile_args_not_scratch (inputs : List String) (defs : List (String × BExp))
+    (ret : Option (List String)) (unc : Bool) (cs : List Nat) (s : CState)
+    (h : (compile inputs defs ret unc).run { choices := cs } = .ok ((), s)) :
+    ∀ q, q < inputs.length → q ∉ s.qc.anc ∧ q ∉ s.qc.free ∧ q ∉ s.qc.marked := by
+  obtain ⟨_, _, _, _, _, _, h1, h2, h3⟩ := C02.compile_bookkeeping inputs defs ret unc cs s h
+  intro q hq
+  exact ⟨fun hm => Nat.not_le_of_lt hq (h1 q hm), fun hm => Nat.not_le_of_lt hq (h2 q hm),
+    fun hm => Nat.not_le_of_lt hq (h3 q hm)⟩
 
 /-- Bennett's principle applies to every compiled circuit: its gates are X/CX/MCX on distinct
 wires, so the body followed by its reverse restores every qubit -/
